@@ -4,3 +4,6 @@ package ptracer
 
 // verifCancelGate is a verification hook, compiled to nothing unless the verif build tag is set
 func verifCancelGate(pgid int, phase int) {}
+
+// verifVMRead is a verification hook, compiled to nothing unless the verif build tag is set
+func verifVMRead() {}
